@@ -12,7 +12,7 @@ MODE="${1:-full}"
 export GOFLAGS=-mod=mod GOPROXY=off GOSUMDB=off GOTOOLCHAIN=local GO111MODULE=on
 SCR="$(mktemp -d /tmp/jmself-XXXXXX)"; trap 'rm -rf "$SCR"' EXIT
 "$VERIF/lib/prepare.sh" "$SCR" both || exit 2
-N=200; REP=4; [ "$MODE" = quick ] && { N=60; REP=2; }
+N=200; REP=5; [ "$MODE" = quick ] && { N=60; REP=2; }
 fail=0
 for P in C06 C07 C15; do
   jobs=()
